@@ -13,6 +13,10 @@ def mk_cfg(spec, epsilon=None, check=True):
 
 
 def snap_cfg(G):
+    from harness.engine import Fail
+    for v in list(G.V) + [G.S] + list(G.Sigma) + [r.variable for r in G.R] + [x for r in G.R for x in r.alternative.symbols]:
+        if not isinstance(v, str):
+            raise Fail("invalid_grammar", "the grammar contains the non-string symbol %r" % (v,))
     return {"V": sorted(str(v) for v in G.V), "T": sorted(str(t) for t in G.Sigma),
             "R": [[str(r.variable), [str(x) for x in r.alternative.symbols]] for r in G.R], "S": str(G.S)}
 
@@ -23,7 +27,7 @@ def typed_ok(G):
     for r in G.R:
         for x in r.alternative.symbols:
             if isinstance(x, Variable) != (str(x) in names):
-                return "symbol %r in rule %s has the wrong class" % (x, r)
+                return "symbol %r in a rule for %r has the wrong class" % (x, r.variable)
     return None
 
 
